@@ -23,6 +23,9 @@ type c15Case struct {
 	Frames []*gen.Img // anim: further frames (same size as Img)
 	Opts   *gen.Opts  // still: full options incl. metadata; anim: Lossless/Quality + metadata used
 	Big    int        // thorough: size of an oversized blob test (0 = none)
+	// LongFrames > 0: the animation has this many frames (around the readers' 1000-chunk bookkeeping
+	// limit) of a tiny canvas, each differing from the previous one in one pixel
+	LongFrames int
 }
 
 func genC15(t *rapid.T) *c15Case {
@@ -50,6 +53,13 @@ func genC15(t *rapid.T) *c15Case {
 		// all nil: force one
 		c.Opts.EXIF, c.Opts.EXIFNil = []byte{1, 2, 3}, false
 		break
+	}
+	if c.Kind == "anim" && rapid.IntRange(0, 39).Draw(t, "longAnim") == 0 {
+		c.LongFrames = rapid.SampledFrom([]int{500, 996, 997, 998, 999, 1000, 1001, 1100, 2100}).Draw(t, "longFrames")
+		c.Img.W, c.Img.H = rapid.IntRange(1, 4).Draw(t, "longW"), rapid.IntRange(1, 4).Draw(t, "longH")
+		c.Img.Kind, c.Img.Place = "nrgba", "tight"
+		c.Img.Pix = gen.RenderContent(c.Img.W, c.Img.H, "noise", "opaque", c.Img.Garbage)
+		return c
 	}
 	if c.Kind == "anim" {
 		n := rapid.IntRange(0, 3).Draw(t, "extraFrames")
@@ -205,6 +215,18 @@ func checkC15(c *c15Case, o *core.Obs) error {
 	for i, f := range c.Frames {
 		frames = append(frames, f.Build())
 		durs = append(durs, 30+i)
+	}
+	for i := 1; i < c.LongFrames; i++ {
+		f := *c.Img
+		f.Pix = append([]byte(nil), c.Img.Pix...)
+		f.Pix[(i%(f.W*f.H))*4+i%3] ^= byte(1 + i%255) // differs from its predecessor, so it is stored as a frame of its own
+		f.Pix[0] = byte(i)
+		f.Pix[1] = byte(i >> 8)
+		frames = append(frames, f.Build())
+		durs = append(durs, 10)
+	}
+	if c.LongFrames > 0 {
+		o.Labelf("long_animation=%d", c.LongFrames)
 	}
 	eo := &animation.EncodeOptions{Lossless: c.Opts.Lossless, Quality: int(c.Opts.Quality()), LoopCount: 3}
 	flushPools()
